@@ -46,7 +46,8 @@ const RUNTIME_ITEMS: [(&'static str, &'static str); 4] = [
     ("Y", "function(a){return a==null?'':String(a)}"),
     (
         "Z",
-        "function(a,b){if(a===true)return true;if(a)return a[b]}",
+        // (after a splice that changed the length of a list, every index of the list may hold another value)
+        "function(a,b){if(a===true)return true;if(a)return a[b]||a.length===true||undefined}",
     ),
     ("P", "function(a){return typeof a==='function'?a:()=>{}}"),
 ];
